@@ -130,6 +130,13 @@ pub struct World {
     /// number of commands that changed the dataset
     pub mutations: u64,
     pub scripts: HashMap<String, Bytes>,
+    /// commands issued through the wrapper script are applied with lenient reply checking
+    pub lenient_scripts: bool,
+    /// a lenient step could not adopt the server's outcome: dumps are no longer comparable
+    pub uncertain: bool,
+    /// tells whether a queued command, at the moment EXEC runs it, falls under an active
+    /// known-finding exclusion (its slot is then not judged and the model becomes uncertain)
+    pub slot_excluder: Option<std::sync::Arc<dyn Fn(&mut World, usize, &Cmd) -> bool + Send + Sync>>,
 }
 
 pub fn mm(kind: &'static str, expected: impl Into<String>, got: &Reply) -> Mismatch {
@@ -137,6 +144,26 @@ pub fn mm(kind: &'static str, expected: impl Into<String>, got: &Reply) -> Misma
 }
 
 // ---------- reply checks (the normaliser) ----------
+
+thread_local! {
+    /// When set, reply *content* is not judged (used for commands issued through scripts in
+    /// checks that only care about the command's effect); the model still applies the command.
+    static LENIENT: std::cell::Cell<bool> = const { std::cell::Cell::new(false) };
+}
+
+pub fn lenient() -> bool {
+    LENIENT.with(|l| l.get())
+}
+
+pub fn with_lenient<T>(on: bool, f: impl FnOnce() -> T) -> T {
+    let prev = LENIENT.with(|l| l.replace(on));
+    let r = f();
+    LENIENT.with(|l| l.set(prev));
+    r
+}
+
+/// The wrapper script used to issue a command through the scripting path.
+pub const WRAP_SCRIPT: &[u8] = b"return redis.call(unpack(ARGV))";
 
 pub fn string_like(f: &Frame) -> Option<&[u8]> {
     match f {
@@ -146,6 +173,9 @@ pub fn string_like(f: &Frame) -> Option<&[u8]> {
 }
 
 pub fn chk_err(r: &Reply) -> Res {
+    if lenient() && matches!(r, Reply::Frame(_)) {
+        return Ok(());
+    }
     match r {
         Reply::Frame(Frame::Error(_)) => Ok(()),
         Reply::Frame(_) => Err(mm("value-for-error", "an error reply", r)),
@@ -162,6 +192,9 @@ fn kind_of(r: &Reply) -> &'static str {
 }
 
 pub fn chk_int(r: &Reply, i: i64) -> Res {
+    if lenient() && matches!(r, Reply::Frame(_)) {
+        return Ok(());
+    }
     match r {
         Reply::Frame(Frame::Int(x)) if *x == i => Ok(()),
         _ => Err(mm(kind_of(r), format!(":{}", i), r)),
@@ -173,6 +206,9 @@ pub fn chk_ok(r: &Reply) -> Res {
 }
 
 pub fn chk_status(r: &Reply, s: &[u8]) -> Res {
+    if lenient() && matches!(r, Reply::Frame(_)) {
+        return Ok(());
+    }
     match r {
         Reply::Frame(f) if string_like(f) == Some(s) => Ok(()),
         _ => Err(mm(kind_of(r), format!("+{}", String::from_utf8_lossy(s)), r)),
@@ -180,6 +216,9 @@ pub fn chk_status(r: &Reply, s: &[u8]) -> Res {
 }
 
 pub fn chk_bulk(r: &Reply, b: &[u8]) -> Res {
+    if lenient() && matches!(r, Reply::Frame(_)) {
+        return Ok(());
+    }
     match r {
         Reply::Frame(f) if string_like(f) == Some(b) => Ok(()),
         _ => Err(mm(kind_of(r), format!("\"{}\"", crate::resp::show_bytes(b)), r)),
@@ -187,6 +226,9 @@ pub fn chk_bulk(r: &Reply, b: &[u8]) -> Res {
 }
 
 pub fn chk_nil(r: &Reply) -> Res {
+    if lenient() && matches!(r, Reply::Frame(_)) {
+        return Ok(());
+    }
     match r {
         Reply::Frame(f) if f.is_nil() => Ok(()),
         _ => Err(mm(kind_of(r), "nil", r)),
@@ -202,6 +244,9 @@ pub fn chk_opt_bulk(r: &Reply, b: Option<&[u8]>) -> Res {
 
 /// Array of bulk strings in exact order.
 pub fn chk_list(r: &Reply, items: &[Bytes]) -> Res {
+    if lenient() && matches!(r, Reply::Frame(_)) {
+        return Ok(());
+    }
     if let Reply::Frame(Frame::Array(v)) = r {
         if v.len() == items.len() && v.iter().zip(items).all(|(f, b)| string_like(f) == Some(b.as_slice())) {
             return Ok(());
@@ -212,6 +257,9 @@ pub fn chk_list(r: &Reply, items: &[Bytes]) -> Res {
 
 /// Array with nil slots.
 pub fn chk_opt_list(r: &Reply, items: &[Option<Bytes>]) -> Res {
+    if lenient() && matches!(r, Reply::Frame(_)) {
+        return Ok(());
+    }
     if let Reply::Frame(Frame::Array(v)) = r {
         if v.len() == items.len()
             && v.iter().zip(items).all(|(f, b)| match b {
@@ -231,6 +279,9 @@ pub fn chk_opt_list(r: &Reply, items: &[Option<Bytes>]) -> Res {
 
 /// Array of bulk strings compared as a multiset.
 pub fn chk_bag(r: &Reply, items: &[Bytes]) -> Res {
+    if lenient() && matches!(r, Reply::Frame(_)) {
+        return Ok(());
+    }
     if let Reply::Frame(Frame::Array(v)) = r {
         let mut got: Vec<Bytes> = Vec::new();
         let mut ok = true;
@@ -252,6 +303,9 @@ pub fn chk_bag(r: &Reply, items: &[Bytes]) -> Res {
 
 /// Empty array (a nil array is accepted where the caller says so).
 pub fn chk_empty(r: &Reply, nil_ok: bool) -> Res {
+    if lenient() && matches!(r, Reply::Frame(_)) {
+        return Ok(());
+    }
     match r {
         Reply::Frame(Frame::Array(v)) if v.is_empty() => Ok(()),
         Reply::Frame(f) if nil_ok && f.is_nil() => Ok(()),
@@ -311,6 +365,9 @@ impl World {
             ambiguous: false,
             mutations: 0,
             scripts: HashMap::new(),
+            lenient_scripts: false,
+            uncertain: false,
+            slot_excluder: None,
         }
     }
 
@@ -546,6 +603,14 @@ impl World {
             if slot.is_error() {
                 self.label("exec-slot-error");
             }
+            if let Some(f) = self.slot_excluder.clone() {
+                if f(self, conn, c) {
+                    self.label("exec-slot-excluded");
+                    self.uncertain = true;
+                    let _ = with_lenient(true, || self.exec_data(conn, c, &r));
+                    continue;
+                }
+            }
             if let Err(mut m) = self.exec_data(conn, c, &r) {
                 m.expected = format!("EXEC slot {} ({}): {}", i, show_cmd(c), m.expected);
                 return Err(m);
@@ -571,6 +636,16 @@ impl World {
                     chk_err(reply)
                 }
             }
+            "PUBLISH" => {
+                // delivery counts are C14's business; here only the reply shape
+                if args.len() != 3 {
+                    return chk_err(reply);
+                }
+                match reply {
+                    Reply::Frame(Frame::Int(n)) if *n >= 0 => Ok(()),
+                    _ => Err(mm("wrong-value", "an integer (receiver count)", reply)),
+                }
+            }
             "SELECT" => {
                 if args.len() != 2 {
                     return chk_err(reply);
@@ -588,6 +663,23 @@ impl World {
                         self.label("select-refused");
                         chk_err(reply)
                     }
+                }
+            }
+            "EVAL" if args.len() >= 4 && args[1] == WRAP_SCRIPT && args[2] == b"0" => {
+                // a command issued through the scripting path: same effect as the direct command
+                self.label("via-script");
+                let inner: Vec<Bytes> = args[3..].to_vec();
+                if self.lenient_scripts {
+                    let _ = with_lenient(true, || self.exec_data(conn, &inner, reply));
+                    // the scripting path is a second implementation of the command (judged by
+                    // C12): after it the dataset is no longer compared with the model
+                    self.uncertain = true;
+                    match reply {
+                        Reply::Frame(_) => Ok(()),
+                        _ => chk_err(reply),
+                    }
+                } else {
+                    self.exec_data(conn, &inner, reply)
                 }
             }
             _ => {
